@@ -414,3 +414,18 @@ Proof.
   change (d_covered (dig q)) with (covered q). change (d_acked (dig q)) with (acked q).
   rewrite (mu_zero_covered q Iq Zq), Aq. reflexivity.
 Qed.
+
+(* the round is itself a finite execution: reachable states are closed under it *)
+Lemma run_ops_app depth a : forall b s, run_ops depth s (a ++ b) = run_ops depth (run_ops depth s a) b.
+Proof. unfold run_ops. intros b s. apply fold_left_app. Qed.
+Lemma nw_steps_ops depth s s' : nw_steps depth s s' -> exists ops, s' = run_ops depth s ops.
+Proof.
+  induction 1 as [s|s o s' No St [ops IH]]; [exists []; reflexivity|].
+  exists (o :: ops). rewrite IH. reflexivity.
+Qed.
+Theorem reachable_round depth s : 0 <= depth -> reachable depth s -> reachable depth (round depth s).
+Proof.
+  intros D R. pose proof (reachable_Inv depth s D R) as I.
+  destruct (nw_steps_ops depth _ _ (round_nw depth s D I)) as [ops2 E].
+  destruct R as [ops1 ->]. exists (ops1 ++ ops2). rewrite run_ops_app. exact E.
+Qed.
